@@ -36,9 +36,11 @@ def evidenceOf (verify : K → Tbs R P → S → Bool) (v : FullView K R P S) : 
     sigValidOverThis := sigValidOverThis verify v,
     finishedCorrect := v.finishedOK }
 
+/-- the spec-level evidence of a resumed connection: the peer's Finished is the correct one
+exactly when it was computed with the master secret of the session being resumed -/
 def sessEvidenceOf (s : SessView) : SessionEvidence :=
   { certCount := s.nCerts, sigChainNow := s.chainSig, encChainNow := s.chainEnc,
-    finishedCorrect := s.finishedOK }
+    finishedCorrect := s.peerFin == some .session }
 
 /-! ### the shape of the source the theorems need -/
 
@@ -53,9 +55,14 @@ structure GoodFullBase (p : Params) : Prop where
 structure GoodFull (p : Params) : Prop extends GoodFullBase p where
   skx : p.skxMandatory = true
 
-/-- resumption: only that Finished is read (holds before and after the F13 repair) -/
+/-- resumption, everything except the re-verification of F13: Finished is read, and what a
+cache eviction leaves in the `SessionState` a handshake may still point to is never a public
+value the handshake goes on with: either the secret is left alone, or it is removed
+altogether (not merely wiped — an all-zero secret is known to everybody) and a session
+without a secret is refused -/
 structure GoodResumeBase (p : Params) : Prop where
   stepFin : "readFinished" ∈ p.resumeSteps
+  evictSafe : evictedSecret p = .session ∨ (evictedSecret p = .empty ∧ p.secretGuard = true)
 
 structure GoodResume (p : Params) : Prop extends GoodResumeBase p where
   reverify : p.resumeReverify = true
@@ -71,7 +78,9 @@ instance (p : Params) : Decidable (GoodFull p) :=
   decidable_of_iff (GoodFullBase p ∧ p.skxMandatory = true)
     ⟨fun ⟨a, b⟩ => ⟨a, b⟩, fun ⟨a, b⟩ => ⟨a, b⟩⟩
 instance (p : Params) : Decidable (GoodResumeBase p) :=
-  decidable_of_iff ("readFinished" ∈ p.resumeSteps) ⟨fun a => ⟨a⟩, fun ⟨a⟩ => a⟩
+  decidable_of_iff ("readFinished" ∈ p.resumeSteps ∧
+      (evictedSecret p = .session ∨ (evictedSecret p = .empty ∧ p.secretGuard = true)))
+    ⟨fun ⟨a, b⟩ => ⟨a, b⟩, fun ⟨a, b⟩ => ⟨a, b⟩⟩
 instance (p : Params) : Decidable (GoodResume p) :=
   decidable_of_iff (GoodResumeBase p ∧ p.resumeReverify = true ∧ p.resumeMinCerts = 2 ∧
       0 ∈ p.resumeIdx ∧ 1 ∈ p.resumeIdx)
@@ -243,8 +252,8 @@ theorem full_authenticated {p : Params} (gp : GoodFullBase p) {verify : K → Tb
 
 /-! ### resumption -/
 
-theorem processResumed_ok {s : SessView} (h : processResumed s = .ok ()) :
-    s.versOK = true ∧ s.suiteOK = true ∧ s.masterPresent = true := by
+theorem processResumed_ok {p : Params} {s : SessView} (h : processResumed p s = .ok ()) :
+    s.versOK = true ∧ s.suiteOK = true ∧ (p.secretGuard = true → heldSecret p s ≠ .empty) := by
   unfold processResumed at h
   split at h
   · exact absurd h (failWith_ne_ok _ _)
@@ -255,14 +264,59 @@ theorem processResumed_ok {s : SessView} (h : processResumed s = .ok ()) :
       split at h
       · exact absurd h (failWith_ne_ok _ _)
       · rename_i h3
-        exact ⟨by simpa using h1, by simpa using h2, by simpa using h3⟩
+        refine ⟨by simpa using h1, by simpa using h2, ?_⟩
+        intro hg he
+        simp [hg, he] at h3
 
-theorem resumed_completed {p : Params} (hf : "readFinished" ∈ p.resumeSteps) {s : SessView}
-    (h : (resumedHandshake p s).outcome = .completed) : s.finishedOK = true := by
+theorem prfKey_eq_session {k : Secret} : k.prfKey = .session ↔ k = .session := by
+  cases k <;> simp [Secret.prfKey]
+
+/-- what a completed resumption branch of the model implies, whatever the source looks like:
+the guard of `processServerHello` passed and the peer computed its Finished with the PRF key
+the client holds -/
+theorem resumed_completed_raw {p : Params} (hf : "readFinished" ∈ p.resumeSteps) {s : SessView}
+    (h : (resumedHandshake p s).outcome = .completed) :
+    (p.secretGuard = true → heldSecret p s ≠ .empty) ∧
+      s.peerFin.map Secret.prfKey = some (heldSecret p s).prfKey := by
   unfold resumedHandshake at h
   have h' := finish_completed.mp h
   simp only [firstError_ok, List.mem_cons, List.mem_nil_iff, or_false, forall_eq_or_imp, forall_eq] at h'
-  exact runStep_fin (runSteps_ok h'.2 _ hf)
+  have hfin := runStep_fin (runSteps_ok h'.2 _ hf)
+  unfold resumeFinishedOK at hfin
+  exact ⟨(processResumed_ok h'.1).2.2, by simpa using hfin⟩
+
+/-- a completed resumption computed with the session's secret — never with what an eviction
+left behind -/
+theorem resumed_held_session {p : Params} (gr : GoodResumeBase p) {s : SessView}
+    (h : (resumedHandshake p s).outcome = .completed) : heldSecret p s = .session := by
+  obtain ⟨hg, _⟩ := resumed_completed_raw gr.stepFin h
+  cases he : readsEvicted p s with
+  | false => simp [heldSecret, he]
+  | true =>
+    rcases gr.evictSafe with h1 | ⟨h2, h3⟩
+    · simp [heldSecret, he, h1]
+    · exact absurd (by simp [heldSecret, he, h2]) (hg h3)
+
+/-- … hence the Finished it accepted was computed with the session's secret -/
+theorem resumed_completed {p : Params} (gr : GoodResumeBase p) {s : SessView}
+    (h : (resumedHandshake p s).outcome = .completed) : s.peerFin = some .session := by
+  obtain ⟨_, hp⟩ := resumed_completed_raw gr.stepFin h
+  rw [resumed_held_session gr h] at hp
+  cases hk : s.peerFin with
+  | none => simp [hk] at hp
+  | some k =>
+    simp only [hk, Option.map_some, Option.some.injEq] at hp
+    rw [prfKey_eq_session.mp hp]
+
+/-- when the eviction removes the secret and the guard is there, a session evicted under the
+handshake's feet is never resumed to completion -/
+theorem resumed_not_evicted {p : Params} (hf : "readFinished" ∈ p.resumeSteps)
+    (hd : p.evictDrops = true) (hgd : p.secretGuard = true) {s : SessView}
+    (h : (resumedHandshake p s).outcome = .completed) : readsEvicted p s = false := by
+  obtain ⟨hg, _⟩ := resumed_completed_raw hf h
+  cases he : readsEvicted p s with
+  | false => rfl
+  | true => exact absurd (by simp [heldSecret, he, evictedSecret, hd]) (hg hgd)
 
 theorem sessChains_mem {idx : List Nat} {s : SessView} (h : sessChains idx s = true) :
     (0 ∈ idx → s.chainSig = true) ∧ (1 ∈ idx → s.chainEnc = true) := by
@@ -277,7 +331,7 @@ theorem resumed_authenticated {p : Params} (gr : GoodResume p) {skip : Bool} {s 
     (ht : takesResume p skip s = true)
     (h : (resumedHandshake p s).outcome = .completed) :
     ResumedAuthenticated (!skip) (sessEvidenceOf s) := by
-  refine ⟨?_, resumed_completed gr.stepFin h⟩
+  refine ⟨?_, by simp [sessEvidenceOf, resumed_completed gr.toGoodResumeBase h]⟩
   intro hv
   have hs : skip = false := by cases skip <;> simp_all
   unfold takesResume offers at ht
